@@ -387,6 +387,13 @@ def loader_cases(ctx, n, tmp):
                 sys.path.remove(str(tmp))
                 for m in [k for k in sys.modules if k == modname or k.startswith(modname + "_") or k == pkg or k.startswith(pkg + ".")]:
                     sys.modules.pop(m, None)
+            # Python objects in the shapes people write them: a settings class with a base class holding the common part,
+            # and an instance of it (the settings are class attributes, some of them inherited)
+            half = len(kvs) // 2
+            Base = type("Base", (), dict(kvs[:half]))
+            Derived = type("Production", (Base,), dict(kvs[half:]))
+            results["class-with-base"] = Config.from_object(Derived)
+            results["instance-of-class"] = Config.from_object(Derived())
             tf = tmp / f"conf_{idx}.toml"
             tf.write_text(toml_dump(kvs))
             results["toml"] = Config.from_toml(str(tf))
